@@ -88,8 +88,24 @@ Definition open_mapped (p : plan) (i : nat) (fs : fsys) : (outcome * nat * fsys)
            | _ => (Mapped, (i + 2)%nat, fs)
            end.
 
-(* rotate1 on a file that is not open yet, telemetry mode not "off" *)
-Definition rotate1 (p : plan) (day : N) (same_day : bool) (fs : fsys) : (outcome * nat * fsys) :=
+(* telemetry.Dir.Mode (internal/telemetry/dir.go): no mode file = "local"; else the
+   content, white space trimmed, up to its first space (a date may follow) *)
+Fixpoint before_space (s : bytes) : bytes :=
+  match s with
+  | [] => []
+  | c :: tl => if c =? 32 then [] else c :: before_space tl
+  end.
+Definition mode_of (content : option bytes) : bytes :=
+  match content with
+  | None => [108; 111; 99; 97; 108]                       (* "local" *)
+  | Some d => before_space (trim_space d)
+  end.
+Definition mode_off (content : option bytes) : bool := beq (mode_of content) [111; 102; 102].   (* "off" *)
+
+(* rotate1 on a file that is not open yet; mode = content of the mode file (read with
+   the plain os package: not a fault point).  Mode "off" parks without any call *)
+Definition rotate1 (p : plan) (day : N) (same_day : bool) (mode : option bytes) (fs : fsys) : (outcome * nat * fsys) :=
+  if mode_off mode then (Parked, 0%nat, fs) else
   match week_end p day same_day 0 fs with
   | (Mapped, i, fs) =>
       if fails p i false then (Parked, (i + 1)%nat, fs)                             (* MkdirAll(dir) *)
@@ -110,8 +126,8 @@ Definition extend (p : plan) (i : nat) : (bool * nat) :=
 (* the scenario of the harness: open, then counters that fit the first page,
    then one whose record needs a second page: (parked after open, calls made
    by the open, extension succeeded, calls in total) *)
-Definition scenario (p : plan) (day : N) (same_day : bool) (fs : fsys) : (outcome * nat * bool * nat) :=
-  let '(o, i, _) := rotate1 p day same_day fs in
+Definition scenario (p : plan) (day : N) (same_day : bool) (mode : option bytes) (fs : fsys) : (outcome * nat * bool * nat) :=
+  let '(o, i, _) := rotate1 p day same_day mode fs in
   match o with
   | Mapped => let '(ok, j) := extend p i in (o, i, ok, j)
   | _ => (o, i, false, i)
